@@ -45,7 +45,7 @@ FuncData* FuncData::newFunc(int32_t base, const IdSpan& args) {
 	FuncData* f = new (::operator new(nb)) FuncData;
 	f->base = base;
 	f->size = static_cast<uint32_t>(Potassco::size(args));
-	std::memcpy(f->args, begin(args), f->size * sizeof(Id_t));
+	if (f->size) { std::memcpy(f->args, begin(args), f->size * sizeof(Id_t)); } // begin(args) may be null if empty
 	return f;
 }
 void FuncData::destroy(FuncData* f) {
@@ -102,7 +102,7 @@ TheoryTerm::iterator TheoryTerm::begin() const { return type() == Theory_t::Comp
 TheoryTerm::iterator TheoryTerm::end()   const { return type() == Theory_t::Compound ? func()->args + func()->size : 0; }
 
 TheoryElement::TheoryElement(const IdSpan& terms, Id_t c) : nTerms_(static_cast<uint32_t>(Potassco::size(terms))), nCond_(c != 0) {
-	std::memcpy(term_, Potassco::begin(terms), nTerms_ * sizeof(Id_t));
+	if (nTerms_) { std::memcpy(term_, Potassco::begin(terms), nTerms_ * sizeof(Id_t)); } // begin(terms) may be null if empty
 	if (nCond_ != 0) { term_[nTerms_] = c; }
 }
 TheoryElement* TheoryElement::newElement(const IdSpan& terms, Id_t c) {
@@ -128,7 +128,7 @@ TheoryAtom::TheoryAtom(Id_t a, Id_t term, const IdSpan& args, Id_t* op, Id_t* rh
 	, guard_(op != 0)
 	, termId_(term)
 	, nTerms_(static_cast<uint32_t>(Potassco::size(args))) {
-	std::memcpy(term_, Potassco::begin(args), nTerms_ * sizeof(Id_t));
+	if (nTerms_) { std::memcpy(term_, Potassco::begin(args), nTerms_ * sizeof(Id_t)); } // begin(args) may be null if empty
 	if (op) {
 		term_[nTerms_] = *op;
 		term_[nTerms_ + 1] = *rhs;
